@@ -76,6 +76,9 @@ public:
    */
   size_t getSize();
 
+  /** Saves the hash to a file (in the representation that load expects) */
+  void save(std::ostream &fp);
+
   /** Loads a hash from a file*/
   static HashBdh *load(std::istream &fp);
 
